@@ -537,8 +537,113 @@ def _run(ctx, tmp, server):
     run.extra["k1_modules_compared"] = k1_checked
     run.extra["k1_disagreements"] = k1_bad
 
+    # ---------------- histories: runs into the same target ----------------
+    _histories(ctx, run, tmp)
+
     # ---------------- K2b: repr / literal_eval ----------------
     _k2_values(ctx, run, live)
+
+
+def _histories(ctx, run, tmp):
+    """Sequences of graphql_schema() runs in one project directory, into the same target path(s), with changing
+    settings (variable names, target suffix) and changing schema content whose files are OLDER or newer than the
+    target (os.utime).  Model (Model/SchemaGen.v run_history, C16_history_is_last_step / _refused_keeps): after
+    each step the target holds the fresh output of that step's inputs if the settings accept the names, and is
+    untouched otherwise - never a function of what it held before."""
+    import time
+
+    rng = random.Random(ctx.seed * 7919 + 13)
+    n_hist = 96 if ctx.thorough else 16
+    now = time.time()
+    jobs, metas = [], []
+    for h in range(n_hist):
+        d = os.path.join(tmp, f"hist{h}")
+        os.makedirs(d)
+        layout = rng.choice(["file", "file", "dir"])
+        targets = {"py": "out/gen_schema.py", "graphql": "out/gen_schema.graphql", "gql": "out/gen_schema.gql"}
+        os.makedirs(os.path.join(d, "out"))
+        steps, meta = [], []
+        tm, sn, fmt = "type_map", "schema", "py"
+        sdl = c16_gen.Gen(random.Random(rng.randrange(1 << 30)), size=0.7, printable=True).schema()
+        n_steps = rng.randint(3, 6)
+        for k in range(n_steps):
+            change = "first" if k == 0 else rng.choice(
+                ["names", "names", "tm", "sn", "schema-older", "schema-older", "schema-newer", "suffix", "bad-names",
+                 "nothing", "names+schema-older"])
+            mtime = None
+            if "names" in change:
+                tm, sn = rng.choice(TM_NAMES) + str(k), rng.choice([x for x in SN_NAMES]) + str(k)
+            if change == "tm":
+                tm = rng.choice(TM_NAMES) + "_" + str(k)
+            if change == "sn":
+                sn = rng.choice(SN_NAMES) + "_" + str(k)
+            if "schema" in change:
+                sdl = c16_gen.Gen(random.Random(rng.randrange(1 << 30)), size=0.7, printable=True).schema()
+            if "older" in change:
+                mtime = now - 86400 * rng.randint(1, 400)      # e.g. cp -p / mv / archive extraction
+            if change == "suffix":
+                fmt = rng.choice([f for f in targets if f != fmt])
+            stm, ssn = tm, sn
+            if change == "bad-names":
+                stm, ssn = rng.choice([(rng.choice(BAD_NAMES), sn), (tm, rng.choice(BAD_NAMES)), (tm, tm)])
+            files = {"schema.graphql": sdl} if layout == "file" else \
+                {"a.graphql": sdl, "sub/extra.gql": "scalar ExtraFromSecondFile\n"}
+            section = {"schema_path": "schema_src/schema.graphql" if layout == "file" else "schema_src",
+                       "target_file_path": targets[fmt], "schema_variable_name": ssn, "type_map_variable_name": stm}
+            steps.append({"files": files, "mtime": mtime, "config": {"tool": {"ariadne-codegen": section}}})
+            meta.append({"change": change, "tm": stm, "sn": ssn, "target": targets[fmt], "older": mtime is not None})
+            run.dist("history-steps", change)
+        jobs.append({"dir": d, "steps": steps, "targets": sorted(targets.values())})
+        metas.append(meta)
+    results = _run_workers("history", jobs)
+    oks = model.batch("C16", [[Sym("settings"), m["tm"], m["sn"]] for meta in metas for m in meta], chunk=500)
+    it = iter(oks)
+    for h, (job, meta, res) in enumerate(zip(jobs, metas, results)):
+        if not isinstance(res, list):
+            run.broken("history worker", str(res)[:400])
+            for _ in meta:
+                next(it)
+            continue
+        held = {}                       # model of the directory: target path -> content
+        for k, (st, m, r) in enumerate(zip(job["steps"], meta, res)):
+            run.count()
+            accepted = next(it)[0] == "t"
+            trail = [{kk: mm[kk] for kk in ("change", "tm", "sn", "target", "older")} for mm in meta[: k + 1]]
+            replay = {"history": trail, "layout": "dir" if len(st["files"]) > 1 else "file",
+                      "steps": [{"config": s_["config"], "files": s_["files"], "mtime": s_["mtime"]}
+                                for s_ in job["steps"][: k + 1]]}
+            if accepted:
+                if not r["fresh_run"]["ok"] or r["fresh_text"] is None:
+                    run.violation(f"history {h} step {k}: fresh generation failed: {r['fresh_run'].get('error')}", replay)
+                    break
+                expected = r["fresh_text"]
+                if not r["run"]["ok"]:
+                    run.violation(f"history {h} step {k} ({m['change']}): run in the used directory failed: "
+                                  f"{r['run'].get('error')}", replay)
+                    break
+            else:
+                expected = held.get(m["target"])
+                if r["run"]["ok"] or not str(r["run"].get("error", "")).startswith("InvalidConfiguration"):
+                    run.violation(f"history {h} step {k}: names {m['tm']!r}/{m['sn']!r} not refused", replay)
+                    break
+            if r["text"] != expected:
+                stale = next((j for j in range(k - 1, -1, -1) if res[j]["text"] == r["text"] and meta[j]["target"] == m["target"]),
+                             None)
+                run.violation(
+                    f"history {h} step {k} ({m['change']}; names {m['tm']}/{m['sn']}; schema files "
+                    f"{'older' if m['older'] else 'newer'} than the target): {m['target']} is not the fresh generation of "
+                    f"this step's inputs" + (f" - it still holds the output of step {stale}" if stale is not None else "")
+                    + f"; strategy said: {r['run'].get('stdout', '')[-120:]!r}",
+                    dict(replay, observed=(r["text"] or "")[:1500], expected=(expected or "")[:1500]))
+                break
+            held[m["target"]] = r["text"]
+            # the other targets of the directory are not touched by this step
+            for t, exists in r["others"].items():
+                if exists != (held.get(t) is not None):
+                    run.violation(f"history {h} step {k}: unrelated target {t} appeared/disappeared", replay)
+        else:
+            run.nontrivial_case(f"history-{h}-{ctx.seed}")
+    run.extra["histories"] = {"histories": n_hist, "steps": sum(len(m) for m in metas)}
 
 
 def _settings_tie(ctx, run, tmp):
